@@ -523,6 +523,36 @@ PLAN = e1prop.Plan('C15', ROWS, cfgs=('v7-vmsa', 'v6-vmsa', 'v7-lpae'), classify
                    case_kw=lambda rng, row: {'mmu': False, 'e': 0, 'code_base': 0x8000, 'mode': rng.choice(('usr', 'svc', 'svc', 'sys', 'irq'))})
 
 
+# loads / stores of a Non-secure guest whose data pages take stage-2 faults (valid three-level stage-2 table, stage 1 off): the abort is reported in
+# HSR (EC 0x24, the load/store instruction syndrome ISV/SAS/SSE/SRT, S1PTW, WnR, fault status), HDFAR and HPFAR and taken to Hyp mode at HVBAR + 0x14
+S2_ROWS = [n for n in ('LDR_imm_A1', 'STR_imm_A1', 'LDRB_imm_A1', 'STRB_imm_A1', 'LDRH_imm_A1', 'STRH_imm_A1', 'LDRSB_imm_A1', 'LDRSH_imm_A1', 'LDR_reg_A1', 'STR_reg_A1', 'LDRB_reg_A1',
+                       'LDRSH_reg_A1', 'LDRT_A1', 'STRT_A1', 'LDRBT_A1', 'LDRHT_A1', 'LDRSBT_A1', 'LDRD_imm_A1', 'STRD_imm_A1', 'LDM_A1', 'STM_A1', 'PUSH_A1', 'POP_A1', 'LDREX_A1', 'STREX_A1',
+                       'LDR_imm_T1', 'STR_imm_T1', 'LDRB_imm_T1', 'LDRH_imm_T1', 'LDR_imm12', 'STR_imm12', 'LDRB_imm12', 'LDRSB_imm12', 'LDRSH_imm12', 'LDRH_imm12', 'LDR_imm8', 'STR_imm8',
+                       'LDRT_T1', 'STRT_T1', 'LDRBT', 'LDRHT', 'LDRSHT', 'LDR_reg_T2', 'STRB_reg_T2', 'LdrRegisterThumbT1', 'StrhRegisterT1', 'LdrsbRegisterT1', 'LDM_T2', 'STMDB_T1',
+                       'LDRD_imm_T1') if n in e1prop.ROWS and n in REG]
+
+
+def tweak_s2(rng, row, w, case):
+    st_ = case['state']
+    fate = gen.stage2_map(rng, case)
+    case.setdefault('labels', []).append('s2-data-page:' + fate)
+    f = row.extract(w)
+    mode = gen.MODE_NAME[st_['cpsr'] & 31]
+    k = gen.bank_key(13, mode) if (row.name.startswith(('PUSH', 'POP')) or 'n' not in f) else (gen.bank_key(f['n'], mode) if f['n'] <= 14 else None)
+    if k:
+        st_[k] = (gen.DATA[0] + rng.choice((0x40, 0x40, 0x44, 0x80, 0xFC, 0x41, 0x42))) & M32
+    if 'm' in f and f.get('m', 15) <= 14 and f.get('m') != f.get('n'):
+        st_[gen.bank_key(f['m'], mode)] = rng.choice((0, 4, 8, 0x10))
+    st_['hcr'] = st_['hcr'] & ~((1 << 27) | (1 << 12)) | (rng.getrandbits(1) << 12)
+    st_['hsr'], st_['hdfar'], st_['hpfar'] = rng.getrandbits(32), rng.getrandbits(32), rng.getrandbits(28) << 4
+
+
+PLAN_S2 = e1prop.Plan('C15', S2_ROWS, cfgs=('v7-virt',), tweak_case=tweak_s2, hooked=(True, True, True, False),
+                      classify=lambda res, case: [lb for lb in case.get('labels', ())] + (['s2:' + res.status + ':' + str(res.detail)] if res.status in ('abort', 'notimpl') else []),
+                      nontrivial=lambda res: res.status == 'abort' or e1prop.default_nontrivial(res),
+                      case_kw=lambda rng, row: {'mmu': False, 'mpu': False, 'e': rng.choice((0, 0, 1)), 'code_base': 0x8000, 'ns': True, 'mode': rng.choice(('svc', 'usr', 'sys', 'irq'))})
+
+
 def run(ctx):
     ctx.rule = ('(a) short-descriptor tables built by construction: TTBCR.N 0..7 with TTBR0/TTBR1 tables, FCSE PID, DACR with all four domain codes, '
                 'SCTLR.{M,AFE,TRE,EE,HA}, PRRR; for a set of virtual addresses (both sides of the TTBR split, section/page edges, random) a mapping kind '
@@ -540,6 +570,7 @@ def run(ctx):
     tasks += [(shard_ld, (ctx.shard_seed(50 + i), ctx.n(600, 8000))) for i in range(4)]
     ctx.pmap(_dispatch, tasks)
     e1prop.run_plan(ctx, 'vf.props.c15:PLAN', PLAN, shards=16, quick=600, thorough=10000)
+    e1prop.run_plan(ctx, 'vf.props.c15:PLAN_S2', PLAN_S2, shards=8, quick=300, thorough=6000, repeat=False, history=False)
 
 
 def _dispatch(fn, args):
@@ -589,4 +620,4 @@ def replay(case, bucket=None):
             return ['%r vs %r' % (ref, got)]
         dd = diff.compare(M, target.snapshot(cpu), pre)
         return [str(sorted(dd))] if dd else []
-    return e1prop.replay(PLAN, case)
+    return e1prop.replay(PLAN, case)        # (PLAN_S2 cases replay identically: one_case only uses the plan for its property id)
